@@ -694,17 +694,17 @@ fn func_type_of<'db>(
     Ok(func_type)
 }
 
-/// The registry outlives `push`/`pop`, so it can still name a table this
-/// execution state no longer has. Those read as missing rather than reaching
-/// the backend, which would panic on them.
+/// The registry outlives `push`/`pop` and is shared with clones, so it can
+/// still name a table this execution state no longer has, or one that only
+/// another e-graph has. Those read as missing rather than reaching the
+/// backend, which would panic on them.
 fn lookup_action(
     registry: &ActionRegistry,
     es: &ExecutionState,
     name: &str,
 ) -> Result<TableAction, Error> {
     registry
-        .lookup_table(name)
-        .filter(|action| action.is_live(es))
+        .lookup_live_table(name, es)
         .cloned()
         .ok_or_else(|| {
             ApiError::MissingTable {
